@@ -72,4 +72,28 @@ GSimNext == /\ k < MaxSteps /\ s.st # "closed"
             /\ SimStep(RandomElement(1..100))
             /\ Emit /\ k' = k + 1 /\ nt' = IF last'.a = "tick" THEN nt + 1 ELSE nt
 GSimSpec == GInit /\ [][GSimNext]_gvars
+
+(* ---- vacuity: the antecedents of the contract are reachable (one run, -workers 1; ReachNote is an ------------- *)
+(* ACTION_CONSTRAINT that is always TRUE - TLC evaluates it on every transition, VIEW or not - and notes the probes  *)
+(* it sees in TLC registers, AllReached is the POSTCONDITION)                                                        *)
+Probes(s1, l1) == << s1.cause = "expire" /\ s1.wills # <<>>,                      \* keep-alive expiry with a will
+             s1.cause = "expire" /\ s1.ka = 2,
+             s1.cause = "disc" /\ s1.will.w # 0,                          \* DISCONNECT of a connection with will flag
+             s1.cause = "drop" /\ s1.wills # <<>>,
+             s1.cause = "error" /\ s1.wills # <<>>,
+             s1.cause = "zombie" /\ s1.wills # <<>>,                      \* a taken-over connection ends
+             s1.cause = "disc" /\ l1.pre = "zombie" /\ s1.will.w # 0,
+             s1.cause = "refused", s1.cause = "nonconnect",
+             Live(s1) /\ s1.ka = 0 /\ s1.idle = MaxTick,                   \* no keep-alive: silent for as long as the clock goes
+             Live(s1) /\ s1.ka > 0 /\ s1.idle = GraceTicks - 1,
+             l1.a = "pkt" /\ l1.p.t = "sub" /\ Len(l1.p.fs) = 2 /\ l1.rep # <<>>,
+             l1.a = "pkt" /\ l1.p.t = "sub" /\ l1.rep = <<>> /\ l1.pre = "up",
+             l1.a = "pkt" /\ l1.p.t = "connect" /\ l1.pre = "up",      \* second CONNECT
+             l1.a = "pkt" /\ l1.p.t = "pub" /\ l1.p.q = 1 /\ l1.pre = "up",
+             l1.a = "pkt" /\ l1.p.t \in BrokerOnly /\ l1.pre = "up" >>
+NProbes == 16
+ASSUME \A i \in 1..NProbes : TLCSet(10 + i, FALSE)
+ReachNote == \A i \in 1..NProbes : Probes(s', last')[i] => TLCSet(10 + i, TRUE)
+AllReached == \A i \in 1..NProbes : TLCGet(10 + i) \/ (PrintT(<<"probe never reached", i>>) /\ FALSE)
+PSpec == GInit /\ [][Next /\ UNCHANGED <<out, k, nt, plan>>]_gvars
 =============================================================================
